@@ -2314,7 +2314,7 @@ theorem mem_members (n : Nat) (s : Slice) (k : Nat) :
     · simp only [List.not_mem_nil, false_iff, not_and]
       intro hk h; subst h; contradiction
   | range a b =>
-    simp only [Slice.members, Slice.accepts, List.mem_filter, List.mem_range'_1, decide_eq_true_eq,
+    simp only [Slice.members, Slice.accepts, List.mem_range'_1, decide_eq_true_eq,
       Bool.and_eq_true]
     omega
   | not s ih =>
